@@ -164,7 +164,7 @@ func c01AnyKeys(r *rand.Rand, v any, depth int) any {
 	case map[string]any:
 		if depth > 0 && r.Intn(2) == 0 {
 			m := map[any]any{}
-			alt := []any{1, 2, true, 2.5, -7, false, 10}
+			alt := []any{1, nil, true, 2.5, -7, false, 10}
 			for i, k := range sortedKeys(x) {
 				if i < len(alt) {
 					m[alt[i]] = c01AnyKeys(r, x[k], depth+1)
